@@ -190,10 +190,12 @@ func (c *connection) onProcess(onConnect OnConnect, onRequest OnRequest) (proces
 				return
 			}
 			// cannot use recover() here, since we don't want to break the panic stack
-			c.unlock(processing)
 			if c.IsActive() {
+				c.unlock(processing)
 				c.Close()
 			} else {
+				// already closed by others who failed to get the processing lock:
+				// run the close callbacks here and keep the lock, so they can't be run again.
 				c.closeCallback(false, false)
 			}
 		}()
